@@ -82,6 +82,12 @@ def main() -> int:
     ev = C.Evidence("C01", "model_checking")
     cs = cases(C.tier())
     findings, harness = D.run_check("C01", MODULE, cs, ev, key_fn, sample_paths=3 if C.tier() == "quick" else 6, max_paths=20000, what_fn=what_fn)
+    from checks import c01_re
+
+    f2, h2, re_info = c01_re.lemmas(ev)
+    findings += f2
+    harness += h2
+    ev.add(escaper_completeness_E_RE=re_info)
     ev.add(
         rule="case = (document skeleton, mode); state = feasible path = one break layout of the whole document; obligation per path: shape(out)==shape(in) under flowmark's own parser",
         functions_encoded=["reformat_api.reformat_text -> markdown_filling.fill_markdown -> MarkdownNormalizer.render_* -> line wrappers (whole pipeline; Marko concrete, lengths symbolic)"],
